@@ -44,6 +44,17 @@ CHECKS = {
     note=NOTE_COMMON + 'Hooks core::verif_hooks::{toposort_impl,sort_by_indices,topsort}. Dependency collection over the `types` map is not structurally recursive: modelled with fuel; fuel exhaustion corresponds to a real stack overflow (finding recorded under C07).',
     technique='Rocq proof (DFS stack invariant, cycle-leader invariant, Permutation) + exhaustive/random differential correspondence via hooks',
     design='§11 C11'),
+ 'C08': dict(
+    text='Machine-checked theorems (Props/C08.v, closed under the global context): a type expression containing u64/i64/usize/isize or a non-empty '
+         'tuple anywhere - any depth, through generic arguments, references, arrays, slices, smart pointers - never parses (induction over the '
+         'nested type syntax); every annotated item using an unsupported construct in a non-skipped position (bad member / payload / alias / '
+         'const / serialized_as type, multi-field tuple struct or variant, serde(flatten), wrong tag/content, non-literal const) fails to '
+         'parse outside two recorded finding classes, each with a refutation witness; a skipped member is exactly as if absent. Tied to the '
+         'code by planting one construct into generated programs and comparing parser::parse with the model, the extracted Gallina '
+         'predicates judging the implementation; exit status / diagnostic / untouched output observed on the real binary.',
+    note=NOTE_COMMON + 'syn is not modelled. The process-level half (errors => non-zero exit, no file written) is observed on the real binary; its model lives with C17.',
+    technique='Rocq proof (induction over nested type syntax, case analysis of the item parsers) + planted-construct differential correspondence',
+    design='§11 C08'),
 }
 NOT_YET = {}
 def main():
